@@ -1,4 +1,5 @@
 import CTV.Lemmas.ChainComplete
+import CTV.Lemmas.ChainFuel
 /-!
 # C02 — only chains that lead, in submitted order, to a trusted root are admitted
 
@@ -46,6 +47,17 @@ theorem signature_budget (n : Int) : Gen.sigBudgetExceeded n = true ↔ 100 < n 
   simp
 
 example : Gen.sigBudgetExceeded 100 = false ∧ Gen.sigBudgetExceeded 101 = true := by decide
+
+/-- The model's recursion fuel is never the reason for an answer: `Verify` starts the search with
+`budget + 1` units, and any larger amount gives the same result (each recursive call of `buildChains` follows
+an increment of the signature counter that stayed within the budget).  So the `fuel` error of the model
+is unreachable and the fuel parameter does not totalise anything. -/
+theorem fuel_irrelevant (E : Env) (c : Cert) (cur : List Cert) (k : Nat) :
+    buildChains E (fuel + k) c cur ⟨0, []⟩ = buildChains E fuel c cur ⟨0, []⟩ :=
+  buildChains_fuel E (fuel + k) fuel c cur ⟨0, []⟩ (by simp [fuel, Gen.maxChainSignatureChecks]; omega)
+    (by simp [fuel, Gen.maxChainSignatureChecks]) (by simp [fuel]; omega) (by simp [fuel])
+
+example : fuel = 101 := by decide
 
 /-! ## Soundness -/
 
